@@ -38,7 +38,7 @@ func init() {
 		Rule: "for each page size a database is built to 30 pages below SQLite's lock-byte page (pgno = 1GiB/pagesize + 1; zeroblob rows, journal_mode=OFF, then WAL, auto_vacuum=INCREMENTAL) and litestream is started (first sync = snapshot path below the boundary). Placements: " +
 			"cross = grow to just below the lock page, sync, then ONE transaction that grows the database across the lock page, sync (incremental path with the lock page inside the growth range); " +
 			"before = grow across in small transactions, sync, then delete + incremental_vacuum so that the database ends exactly on the page before the lock page, sync (shrink across the boundary); " +
-			"beyond = small MinCheckpointPageN, several transactions growing to 40 pages beyond the lock page within ONE sync, then Checkpoint(TRUNCATE) (the database file itself extends beyond the lock page; full level-0 snapshot written from it), one more write + sync. Then Compact(1), Restore(latest) (L0/L1 plan), Snapshot (snapshot path with the lock page inside the committed range), Close. " +
+			"justbeyond = grow across, then delete + incremental_vacuum so that the database ends exactly one page behind the lock page, sync, Checkpoint(TRUNCATE) (full level-0 copy of a database file of exactly lock+1 pages), one more write + sync; beyond = small MinCheckpointPageN, several transactions growing to 40 pages beyond the lock page within ONE sync, then Checkpoint(TRUNCATE) (the database file itself extends beyond the lock page; full level-0 snapshot written from it), one more write + sync. Then Compact(1), Restore(latest) (L0/L1 plan), Snapshot (snapshot path with the lock page inside the committed range), Close. " +
 			"Oracle: every litestream call returns nil; every LTX file on the replica is decoded as a stream (CRC verified) and must not contain the lock page; the level-9 snapshot must hold exactly pages 1..Commit without the lock page and each page must equal the source; the restored file equals the checkpointed source page by page (mask: page1[24:28], page1[92:100], _litestream_seq root page), has the same size, and its lock page is all zero. " +
 			"distinct = (page size, placement); non-trivial = the placement was reached exactly (page_count checked) and, for cross/beyond, at least one level-0 file has Commit beyond the lock page while its predecessor's Commit is below it",
 		Assumptions: []string{"file replica client only", "the source is checkpointed in place (application and litestream quiescent, litestream closed) to obtain the committed source image; 1 GiB copies are avoided", "ltx decoder/LZ4 trusted"},
@@ -60,7 +60,7 @@ func cases(run *vf.Run) ([]json.RawMessage, error) {
 	}
 	var out []json.RawMessage
 	for _, ps := range sizes {
-		for _, pl := range []string{"cross", "before", "beyond"} {
+		for _, pl := range []string{"cross", "before", "beyond", "justbeyond"} {
 			out = append(out, vf.Spec(spec{PageSize: ps, Placement: pl, Seed: vf.SubSeed(run.Seed, "C17", ps, pl)}))
 		}
 	}
@@ -545,6 +545,33 @@ func runCase(run *vf.Run, raw json.RawMessage, dir string) *vf.Result {
 				res.Count("db_file_extends_beyond_lock_page", 1)
 			}
 		}
+	case "justbeyond":
+		// the database ends exactly one page behind the lock page when full copies are taken
+		// from the database file (boundary snapshot of a TRUNCATE checkpoint, level-9 snapshot)
+		if err := e.growTo(e.lock + 8); err != nil {
+			return herr("grow", err)
+		}
+		if !e.must("SyncAndWait(grown across the lock page in small transactions)", e.ls.SyncAndWait(ctx)) {
+			return res
+		}
+		if err := e.settle(e.lock + 1); err != nil {
+			return herr("settle", err)
+		}
+		pc, _ = e.pageCount()
+		e.logf("database now ends exactly one page behind the lock page: %d pages", pc)
+		reached = pc == e.lock+1
+		if !e.must("SyncAndWait(shrunk to one page behind the lock page)", e.ls.SyncAndWait(ctx)) {
+			return res
+		}
+		if !e.must("Checkpoint(TRUNCATE)", e.ls.Checkpoint(ctx, litestream.CheckpointModeTruncate)) {
+			return res
+		}
+		if _, err := e.app.Exec(`UPDATE t SET v=? WHERE id=(SELECT min(id) FROM t)`, e.blob(e.ps/4)); err != nil {
+			return herr("update", err)
+		}
+		if !e.must("SyncAndWait(after checkpoint)", e.ls.SyncAndWait(ctx)) {
+			return res
+		}
 	default:
 		return herr("spec", fmt.Errorf("unknown placement %q", s.Placement))
 	}
@@ -635,7 +662,7 @@ func runCase(run *vf.Run, raw json.RawMessage, dir string) *vf.Result {
 	res.Count(fmt.Sprintf("page_size_%d", e.ps), 1)
 	res.Count("placement_"+s.Placement, 1)
 	res.Sig = fmt.Sprintf("ps%d-%s", e.ps, s.Placement)
-	res.Nontrivial = reached && (s.Placement == "before" || crossing >= 1)
+	res.Nontrivial = reached && (s.Placement == "before" || s.Placement == "justbeyond" || crossing >= 1)
 	res.Sample = map[string]any{"page_size": e.ps, "lock_page": e.lock, "placement": s.Placement, "final_pages": finalPages, "ltx_files": len(files), "wall_s": int(time.Since(e.t0).Seconds())}
 	return res
 }
